@@ -151,7 +151,7 @@ fn inputs() -> Vec<(String, FileSet)> {
         spec.split_types = i % 2 == 0;
         v.push((format!("gen-wsdl{i}"), crate::c12::render(&spec)));
     }
-    v.push(("graph-diamond".into(), crate::c11::render(&crate::c11::Graph { n: 4, edges: vec![vec![1, 2], vec![3], vec![3], vec![0]], start: 0, noise: crate::c11::Noise::None, same_suffix: false, declare_prefixes: true, tns_of: vec![] })));
+    v.push(("graph-diamond".into(), crate::c11::render(&crate::c11::Graph { n: 4, edges: vec![vec![1, 2], vec![3], vec![3], vec![0]], start: 0, noise: crate::c11::Noise::None, same_suffix: false, declare_prefixes: true, tns_of: vec![], includes: vec![] })));
     v
 }
 
